@@ -168,7 +168,7 @@ func bytesEq(a, b []byte) bool {
 
 // ECC: arbitrary ClientKeyExchange body (F2, F3, F4 are index panics on 1..4-byte bodies).
 //
-//verif:harness props=C09 paths=20000 reach=accepted,rejected
+//verif:harness props=C09,C03 paths=20000 reach=accepted,rejected
 func VerifHarness_C09_kx_ecc_server() {
 	n := verifSplitInt("len", 0, verifBound(9, 14))
 	body := verifNondetBytes("ckx", n)
@@ -191,7 +191,7 @@ func VerifHarness_C09_kx_ecc_server() {
 
 // ECDHE: arbitrary ClientKeyExchange body of the lengths that matter, client certificates of any key type.
 //
-//verif:harness props=C09 paths=20000 reach=accepted,rejected
+//verif:harness props=C09,C03 paths=20000 reach=accepted,rejected
 func VerifHarness_C09_kx_ecdhe_server() {
 	var n int
 	switch k := verifSplitInt("lenClass", 0, 12); {
@@ -218,7 +218,7 @@ func VerifHarness_C09_kx_ecdhe_server() {
 // ECC ServerKeyExchange: nil only if the signature over client_random || server_random || uint24 len ||
 // encryption certificate was verified with the signing certificate's key and the verdict was true.
 //
-//verif:harness props=C02,C09 paths=40000 reach=accepted,rejected
+//verif:harness props=C02,C09,C03 paths=40000 reach=accepted,rejected
 func VerifHarness_C02_skx_ecc() {
 	hs := newClientHS(verifSplitInt("ncerts", 0, 3))
 	n := verifSplitInt("len", 0, verifBound(7, 10))
@@ -246,7 +246,7 @@ func VerifHarness_C02_skx_ecc() {
 // ECDHE ServerKeyExchange: nil only if the signature over client_random || server_random || ServerECDHParams
 // was verified with the signing certificate's key; the temporary key is the one that was signed.
 //
-//verif:harness props=C02,C09 paths=60000 reach=accepted,rejected
+//verif:harness props=C02,C09,C03 paths=60000 reach=accepted,rejected
 func VerifHarness_C02_skx_ecdhe() {
 	hs := newClientHS(verifSplitInt("ncerts", 0, 3))
 	n := verifSplitInt("len", 0, verifBound(10, 13))
